@@ -56,6 +56,7 @@ class Engine(ExprMixin, BuiltinMixin):
         self.inline = set()     # qualnames that may be inlined
         self.loop_specs = {}    # (qualname, ordinal) -> LoopSpec
         self.hooks = {}         # name -> callable(E, st, args, kwargs) -> [Ev]   (sleep, time.time, ...)
+        self.out_of_reach = []  # verification units that left the verifier's reach (see unit())
         self.obligations = []
         self.functions_run = {}  # qualname -> describe()
         self.assumptions = []
@@ -569,3 +570,37 @@ def _as_load(t):
     if isinstance(t, ast.Subscript):
         return ast.Subscript(value=t.value, slice=t.slice, ctx=ast.Load())
     raise OutOfReach("augmented assignment target")
+
+
+def unit(f):
+    """Decorator for a verification unit (a verify_* function of a shared model): when the code it anchors to leaves the
+    verifier's reach, only this unit is given up (recorded in E.out_of_reach -> exit 2 / bounded stand-in); the other units of
+    the property are still generated and decided. The engine configuration is put back as it was before the unit."""
+    import functools
+
+    @functools.wraps(f)
+    def wrapper(E, *a, **k):
+        saved = (E.case_suffix, dict(E.contracts), set(E.inline), dict(E.loop_specs), dict(E.hooks),
+                 getattr(E, "comprehension_hook", None), getattr(E, "opaque_method", None))
+        try:
+            return f(E, *a, **k)
+        except OutOfReach as e:
+            E.out_of_reach.append("%s: %s" % (f.__name__, e))
+            E.case_suffix, E.contracts, E.inline, E.loop_specs, E.hooks = saved[0], saved[1], saved[2], saved[3], saved[4]
+            E.comprehension_hook = saved[5]
+            if saved[6] is None:
+                if hasattr(E, "opaque_method"):
+                    try:
+                        del E.opaque_method
+                    except AttributeError:
+                        pass
+            else:
+                E.opaque_method = saved[6]
+            return None
+    return wrapper
+
+
+def guard_units(namespace):
+    for n, f in list(namespace.items()):
+        if n.startswith("verify_") and callable(f) and not getattr(f, "__wrapped__", None):
+            namespace[n] = unit(f)
